@@ -36,7 +36,7 @@ def main():
         for p in (a[1:] or ALL):
             if os.path.exists(os.path.join(ROOT, "checks", p.lower() + ".py")):
                 rc |= run_check("checks." + p.lower(), "quick", 0, update_ledger=True)
-        sys.exit(rc)
+        _hard_exit(rc)
     ap = argparse.ArgumentParser()
     ap.add_argument("prop")
     ap.add_argument("--tier", default=os.environ.get("VERIF_TIER", "quick"))
@@ -52,7 +52,17 @@ def main():
         traceback.print_exc()
         print("CHECKER-CRASH", repr(e)[:300])
         rc = 3
-    sys.exit(rc)
+    _hard_exit(rc)
+
+
+def _hard_exit(rc):
+    # simulated ranks that hang (known findings F5 / F6, or a mutated tree) leave daemon threads stuck inside torch collectives; a normal
+    # interpreter shutdown then aborts (SIGABRT, exit status -6) AFTER the verdict was printed.  Flush and leave without the teardown.
+    try:
+        sys.stdout.flush()
+        sys.stderr.flush()
+    finally:
+        os._exit(rc)
 
 
 main()
